@@ -149,7 +149,35 @@ def to_kind(v, kind):
             return V.R(v)
         if isinstance(v, float):
             return V.frac_of_float(v)
+    if kind == "i":
+        # storing a non-integer into an integer array truncates toward zero (numpy's unsafe same-kind cast on assignment)
+        if isinstance(v, bool):
+            return int(v)
+        if isinstance(v, float):
+            v = V.frac_of_float(v)
+        if isinstance(v, Fraction):
+            import math
+            return int(math.trunc(v))
+        if isz(v) and z3.is_real(v):
+            return trunc_scalar(v)
     return v
+
+
+def trunc_scalar(v):
+    """Integer part of a real (toward zero): fresh integer k with k <= v < k+1 (v >= 0) or k-1 < v <= k (v < 0)."""
+    c = V.conc(v)
+    if c is not None:
+        import math
+        return int(math.trunc(c))
+    sv = z3.simplify(v)
+    if z3.is_app(sv) and sv.decl().kind() == z3.Z3_OP_TO_REAL:
+        return sv.arg(0)
+    used("integer dtype: a real stored into an integer array is truncated toward zero")
+    k = z3.Int("trunc!%d" % V.fresh_id())
+    vr = V.R(v)
+    ctx().fact(z3.If(vr >= 0, z3.And(z3.ToReal(k) <= vr, vr < z3.ToReal(k) + 1),
+                     z3.And(z3.ToReal(k) >= vr, vr > z3.ToReal(k) - 1)))
+    return k
 
 
 def elementwise(f, *arrs, kind=None):
